@@ -8,6 +8,7 @@ import (
 	"net/http"
 	"net/http/httptest"
 	"os"
+	"regexp"
 	"sort"
 	"strconv"
 	"strings"
@@ -119,6 +120,7 @@ type World struct {
 	absorbed    int
 	newActor    int // actor that receives the next unknown conn.<cid> subscription
 	Script      []Op
+	SymScript   []Op // Script with connection ids in symbolic form (what replay files hold)
 	Race        bool
 	stats       Stats
 	Failed      string // harness-level failure (inconclusive)
@@ -254,8 +256,68 @@ func (w *World) CIDs() []string {
 	for c := range w.cidOwner {
 		r = append(r, c)
 	}
-	sort.Strings(r)
+	// by actor, so that the order is the same in every run of a script
+	sort.Slice(r, func(i, j int) bool { return w.cidOwner[r[i]] < w.cidOwner[r[j]] })
 	return r
+}
+
+// Connection ids are chosen by the gateway and differ from run to run. Scripts
+// therefore name them symbolically, "{cid:N}" for the cid of actor N, in every
+// string field of an op; Exec expands them to the ids of the current run.
+
+var symCIDRe = regexp.MustCompile(`\{cid:(\d+)\}`)
+
+func (w *World) mapOpStrings(op Op, f func(string) string) Op {
+	op.S, op.Q, op.M, op.P = f(op.S), f(op.Q), f(op.M), f(op.P)
+	if op.Val != nil {
+		v := *op.Val
+		v.R = f(v.R)
+		op.Val = &v
+	}
+	if len(op.Par) > 0 {
+		par := make([]Op, len(op.Par))
+		for i, p := range op.Par {
+			par[i] = w.mapOpStrings(p, f)
+		}
+		op.Par = par
+	}
+	return op
+}
+
+// expandOp replaces the symbolic cids of known actors by their current ids.
+func (w *World) expandOp(op Op) Op {
+	return w.mapOpStrings(op, func(s string) string {
+		if !strings.Contains(s, "{cid:") {
+			return s
+		}
+		return symCIDRe.ReplaceAllStringFunc(s, func(m string) string {
+			n, _ := strconv.Atoi(m[5 : len(m)-1])
+			for cid, a := range w.cidOwner {
+				if a == n {
+					return cid
+				}
+			}
+			return m
+		})
+	})
+}
+
+// symbolicOp replaces the current connection ids by their symbolic form.
+func (w *World) symbolicOp(op Op) Op {
+	if len(w.cidOwner) == 0 {
+		return op
+	}
+	return w.mapOpStrings(op, func(s string) string {
+		if len(s) < 20 {
+			return s
+		}
+		for cid, a := range w.cidOwner {
+			if strings.Contains(s, cid) {
+				s = strings.Replace(s, cid, "{cid:"+strconv.Itoa(a)+"}", -1)
+			}
+		}
+		return s
+	})
 }
 
 // absorb feeds new log entries to reference clients and monitors. Only called
@@ -348,10 +410,13 @@ func (w *World) Exec(op Op) {
 		return
 	}
 	w.step = len(w.Script)
+	op = w.expandOp(op)
+	sop := w.symbolicOp(op)
 	w.Script = append(w.Script, op)
+	w.SymScript = append(w.SymScript, sop)
 	w.stats.Steps++
 	if w.Journal != nil {
-		b, _ := json.Marshal(op)
+		b, _ := json.Marshal(sop)
 		w.Journal.Write(append(b, '\n'))
 	}
 	if op.K == "par" {
